@@ -4,8 +4,8 @@ export GOFLAGS=-mod=mod GOPROXY=off GOSUMDB=off GOTOOLCHAIN=local
 D=$(realpath $1); MSG=$2; shift 2
 cd /repo || exit 1
 git diff --quiet || { echo "repo dirty"; exit 1; }
-git apply --check "$D" || { echo "APPLY CHECK FAILED $D"; exit 1; }
-git apply "$D"
+git apply --exclude="*_test.go" --check "$D" || { echo "APPLY CHECK FAILED $D"; exit 1; }
+git apply --exclude="*_test.go" "$D"
 go1.26 build ./... || { echo BUILD FAILED; git checkout -q -- .; exit 1; }
 gofmt -l $(git diff --name-only | grep '\.go$') | grep . && { echo "GOFMT"; }
 PK=${@:-$(git diff --name-only | xargs -n1 dirname | sort -u | sed 's#^#./#')}
